@@ -243,6 +243,8 @@ def guardedStmt (k : Known) : UStmt → Option Known
     | some _ => some Known.none
     | none => none
   | .clear f => some (k.forget f)
+  | .zeroInt f => some (k.forget f)
+  | .zeroInts f _ => some (k.forget f)
   | .makeInts f _ => some (k.forget f)
   | .forCountInt b w _ _ g =>          -- reads `count` integers with no guard inside the loop
     if covered k b (.mul w (.fint g)) then some Known.none else none
@@ -286,6 +288,9 @@ inductive Slot
   | subs (b : Blk) (f : String) (typ : String) (cnt : Option String) (size : Option Nat)
   -- an optional integer: on the wire iff non-zero (`wc`: the word count under which Unmarshal reads it)
   | opt (b : Blk) (w : Nat) (e : End) (f : String) (wc : Option Nat)
+  -- an optional array of integers: on the wire iff some element is non-zero (`n`: how many elements Unmarshal reads,
+  -- 0 on the marshal side, which does not say; `wc`: the word count under which Unmarshal reads them)
+  | optInts (b : Blk) (w : Nat) (e : End) (f : String) (n : Nat) (wc : Option Nat)
   deriving DecidableEq, Repr, Inhabited
 
 def layoutM : List MStmt → Option (List Slot)
@@ -316,7 +321,7 @@ def layoutU : List UStmt → Option (List Slot)
   | _ :: _ => none
 
 def Slot.blk : Slot → Blk
-  | .int b .. | .u8 b .. | .bytes b .. | .arr b .. | .sub b .. | .ints b .. | .subs b .. | .opt b .. => b
+  | .int b .. | .u8 b .. | .bytes b .. | .arr b .. | .sub b .. | .ints b .. | .subs b .. | .opt b .. | .optInts b .. => b
 
 /-- slot of the marshal side vs slot of the unmarshal side (the unmarshal side knows lengths/windows) -/
 def Slot.agrees : Slot → Slot → Bool
@@ -328,6 +333,7 @@ def Slot.agrees : Slot → Slot → Bool
   | .ints b w e f _, .ints b' w' e' f' _ => b == b' && w == w' && e == e' && f == f'
   | .subs b f t _ _, .subs b' f' t' _ _ => b == b' && f == f' && t == t'
   | .opt b w e f _, .opt b' w' e' f' _ => b == b' && w == w' && e == e' && f == f'
+  | .optInts b w e f _ _, .optInts b' w' e' f' _ _ => b == b' && w == w' && e == e' && f == f'
   | _, _ => false
 
 def agreeAll : List Slot → List Slot → Bool
@@ -342,7 +348,8 @@ def restOnlyLast : List Slot → Bool
   | _ :: r => restOnlyLast r
 
 def Slot.field : Slot → String
-  | .int _ _ _ f | .u8 _ f | .bytes _ f _ | .arr _ f | .sub _ f _ _ | .ints _ _ _ f _ | .subs _ f _ _ _ | .opt _ _ _ f _ => f
+  | .int _ _ _ f | .u8 _ f | .bytes _ f _ | .arr _ f | .sub _ f _ _ | .ints _ _ _ f _ | .subs _ f _ _ _ | .opt _ _ _ f _
+  | .optInts _ _ _ f _ _ => f
 
 /-- wire size of the nested types whose encoding has the same length for every value (what the
     literal guards and fixed windows in front of a nested read are compared with) -/
@@ -447,6 +454,18 @@ def splitAndX : List UStmt → Option (List UStmt)
     the AndX stanza (which must be there: `Marshal` puts the two AndX words first), otherwise all of it -/
 def bodyU (c : Cmd) : Option (List UStmt) := if c.isAndX then splitAndX c.unmarshal else some c.unmarshal
 
+/-- a nested value decoded from the *whole* block right behind `offset = 0` (`offset = 0; bytesRead, err =
+    c.F.Unmarshal(blk)`) is decoded from `blk[offset:]`: the two slice expressions denote the same bytes there
+    (`go_normWhole`, Lemmas/SmbUnmarshal.lean).  The static predicates read the unmarshal program in this normal form;
+    a whole-block decode anywhere else stays what it is (and outside every fragment). -/
+def normWhole : List UStmt → List UStmt
+  | .resetOffset :: .readSub b f t none true ck st :: r => .resetOffset :: .readSub b f t none false ck st :: normWhole r
+  | s :: r => s :: normWhole r
+  | [] => []
+
+/-- `bodyU` in the normal form the layout functions read -/
+def bodyN (c : Cmd) : Option (List UStmt) := (bodyU c).map normWhole
+
 /-- C04 static predicate: both programs are straight-line, describe the same slots per block in the
     same order (`mirrorSlots`), and the unmarshal program of an AndX command consumes the AndX words
     the marshal prologue emits before it reads the first field (`bodyU`); moreover — the side conditions without which the round trip is not a theorem —
@@ -454,7 +473,7 @@ def bodyU (c : Cmd) : Option (List UStmt) := if c.isAndX then splitAndX c.unmars
     discipline, reads lengths before the buffers they describe, guards no more than it reads
     (`okU`), and every declared field is on the wire. -/
 def Mirror (c : Cmd) : Bool :=
-  match bodyU c with
+  match bodyN c with
   | none => false
   | some body =>
     match layoutM c.marshal, layoutU body with
@@ -482,6 +501,8 @@ def slotBytes (C : Codecs) (env : Env) : Slot → Bytes
     | some (.ts vs) => vs.flatMap (fun v => match C.enc typ v with | .ok (bs, _) => bs | _ => [])
     | _ => []
   | .opt _ w e f _ => match env.get f with | some (.n x) => if x = 0 then [] else intBytes w e x | _ => []
+  | .optInts _ w e f _ _ =>
+    match env.get f with | some (.ns xs) => if xs.any (· != 0) then xs.flatMap (intBytes w e) else [] | _ => []
 
 /-- bytes of a sequence of slots: the encoding a layout prescribes for the field values -/
 def layoutBytes (C : Codecs) (env : Env) (l : List Slot) : Bytes := l.flatMap (slotBytes C env)
@@ -497,7 +518,29 @@ def Cmd.subTypes (c : Cmd) : List String :=
 def MStmt.mentions (f : String) : MStmt → Bool
   | .int _ _ _ g | .quad _ _ _ g | .u8 _ g | .bytes _ g | .arr _ g | .sub _ g _ | .setFmt g _ => g == f
   | .assignLen g h _ => g == f || h == f
+  | .zeros _ _ => false
+  | .forInt _ _ _ g => g == f
   | _ => true
+
+/-- `layoutM`, except that literal zero bytes in the *data* block (`append(raw, 0x00, 0x00)`: the terminator of a
+    null-terminated string, NegotiateResponse) are passed over: they belong to no field and move no parameter slot;
+    and a `range` loop over an integer array is one slot of variable width (`slotAt` stops there: the fixed-width
+    fields in front of it keep their ranges — OpenAndxRequest, TransactionRequest, the `Reserved` arrays).
+    Only `slotRange` reads the layout through this function; `Mirror`, `Conforms` and `Spec.Cifs.encode` keep
+    `layoutM`, for which such a program is outside the straight-line fragment. -/
+def layoutZ : List MStmt → Option (List Slot)
+  | [] => some []
+  | .int b w e f :: r => (layoutZ r).map (.int b w e f :: ·)
+  | .quad b w e f :: r => (layoutZ r).map (.int b w e f :: ·)
+  | .u8 b f :: r => (layoutZ r).map (.u8 b f :: ·)
+  | .bytes b f :: r => (layoutZ r).map (.bytes b f none :: ·)
+  | .arr b f :: r => (layoutZ r).map (.arr b f :: ·)
+  | .sub b f t :: r => (layoutZ r).map (.sub b f t none :: ·)
+  | .setFmt _ _ :: r => layoutZ r
+  | .assignLen _ _ _ :: r => layoutZ r
+  | .zeros .D _ :: r => layoutZ r
+  | .forInt b w e f :: r => (layoutZ r).map (.ints b w e f none :: ·)
+  | _ :: _ => none
 
 /-- offset and width of the first fixed-width slot of field `f` in a block's slot list, provided
     every slot in front of it has a fixed width (`off`: bytes in front of the list) -/
@@ -508,11 +551,12 @@ def slotAt (f : String) : List Slot → Nat → Option (Nat × Nat)
   | _ :: _, _ => none
 
 /-- byte range `[lo, hi)` of a fixed-width parameter field's slot inside the encoded command: defined
-    when the marshal program is straight-line, exactly one statement touches the field, and only
+    when the marshal program is straight-line (literal terminator bytes in the data block apart: `layoutZ`),
+    exactly one statement touches the field, and only
     fixed-width slots precede it in the parameter block (then the offset does not depend on values) -/
 def slotRange (c : Cmd) (f : String) : Option (Nat × Nat) :=
   if f == andxField || (c.marshal.filter (·.mentions f)).length != 1 then none else
-  match layoutM c.marshal with
+  match layoutZ c.marshal with
   | none => none
   | some m =>
     match slotAt f (m.filter (·.blk == .P)) 0 with
@@ -562,6 +606,7 @@ def consistentSlots (C : Codecs) (env : Env) : List Slot → Bool
       | some (.ts vs) => vs.all (fun v => match C.enc typ v with | .ok _ => true | _ => false)
       | _ => false) && consistentSlots C env r
   | .opt _ w _ f _ :: r => (match env.get f with | some (.n x) => x < 256 ^ w | _ => false) && consistentSlots C env r
+  | .optInts _ w _ f _ _ :: r => (match env.get f with | some (.ns xs) => xs.all (· < 256 ^ w) | _ => false) && consistentSlots C env r
 
 /-- a nested value is in its type's domain: it encodes, and its own encoding decodes back to it,
     consuming exactly what was written -/
@@ -656,6 +701,8 @@ def relationsHold (C : Codecs) (env : Env) (plen : Nat) : (pad : Nat) → List U
       | some (.b bs), e => evalEnv env e == some bs.length
       | _, _ => false) && relationsHold C env plen pad r
   | pad, .readArr _ f n :: r => (match env.get f with | some (.b bs) => bs.length == n | _ => false) && relationsHold C env plen pad r
+  -- `c.F = [3]T{…}`: the fixed array has its three entries
+  | pad, .readArr3 _ f :: r => (match env.get f with | some (.ns xs) => xs.length == 3 | _ => false) && relationsHold C env plen pad r
   | pad, .readSub _ f typ _ _ _ _ :: r => (match env.get f with | some (.t v) => tupOk C typ v | _ => false) && relationsHold C env plen pad r
   | pad, .forCountInt _ _ _ f g :: r =>
     (match env.get f, env.get g with | some (.ns xs), some (.n k) => xs.length == k | _, _ => false) && relationsHold C env plen pad r
@@ -705,7 +752,7 @@ def emittedStmt : MStmt → List String
   | .subHead f _ => [f]
   | .int _ _ _ f | .quad _ _ _ f | .u8 _ f | .bytes _ f | .arr _ f | .sub _ f _ | .forSub _ f _
   | .forInt _ _ _ f => [f]
-  | .setFmt _ _ | .assignLen _ _ _ => []
+  | .setFmt _ _ | .assignLen _ _ _ | .zeros _ _ => []
 def emittedDeep : List MStmt → List String
   | [] => []
   | s :: r => emittedStmt s ++ emittedDeep r
@@ -724,6 +771,16 @@ def readDeep : List UStmt → List String
   | [] => []
   | s :: r => readStmt s ++ readDeep r
 end
+
+/-- the fields an unmarshal program sets to zero in front of the word-count test under which it reads them
+    (`c.F = 0; if WordCount == k { … c.F = … }`): when the test fails the receiver does not keep an old value -/
+def resetBeforeTest : List UStmt → List String
+  | [] => []
+  | .zeroInt f :: .ifWordCount k body :: r =>
+    (if (readDeep body).contains f then [f] else []) ++ resetBeforeTest (.ifWordCount k body :: r)
+  | .zeroInts f _ :: .ifWordCount k body :: r =>
+    (if (readDeep body).contains f then [f] else []) ++ resetBeforeTest (.ifWordCount k body :: r)
+  | _ :: r => resetBeforeTest r
 
 inductive RtFinding
   | andxNotConsumed | fieldNotMarshalled | fieldNotUnmarshalled | readsWholeBuffer | conditionalField | fixedEntrySize
@@ -746,8 +803,13 @@ def knownRtKind (c : Cmd) : Option RtFinding :=
   -- two or more nested values each decoded from the start of the block instead of from `offset`
   else if (c.unmarshal.filter (fun s => match s with | .readSub _ _ _ _ true _ _ => true | _ => false)).length ≥ 2 then
     some .readsWholeBuffer
-  -- a field emitted only under a condition on `WordCount` or on its own value, read back under another
-  else if c.marshal.any (fun s => match s with | .ifWordCount .. | .ifNonZero .. | .ifNonZeroArr .. => true | _ => false) then
+  -- a field emitted under a condition on the `WordCount` Marshal is still building (never true), or emitted iff
+  -- non-zero and not reset by Unmarshal in front of the word-count test that reads it (a receiver that held a
+  -- value from an earlier message keeps it when the short form arrives)
+  else if c.marshal.any (fun s => match s with
+      | .ifWordCount .. => true
+      | .ifNonZero f _ | .ifNonZeroArr f _ => !(resetBeforeTest c.unmarshal).contains f
+      | _ => false) then
     some .conditionalField
   -- list entries decoded through a fixed window whose size is not the entries' encoded size
   else if c.unmarshal.any (fun s => match s with | .whileFitsSub .. => true | _ => false) then
